@@ -8,6 +8,7 @@ pub mod c06;
 pub mod c07;
 pub mod c08;
 pub mod c17;
+pub mod c18;
 pub mod rolling;
 pub mod c09;
 pub mod c10;
@@ -37,6 +38,7 @@ pub fn run(ctx: &Ctx) -> Option<Report> {
         "C11" => c11::run(ctx),
         "C12" => c12::run(ctx),
         "C13" => c13::run(ctx),
+        "C18" => c18::run(ctx),
         "C19" => c19::run(ctx),
         "C20" => c20::run(ctx),
         _ => return None,
@@ -61,6 +63,7 @@ pub fn replay(id: &str, case: &serde_json::Value) -> Option<Result<(), String>> 
         "C11" => c11::replay(case),
         "C12" => c12::replay(case),
         "C13" => c13::replay(case),
+        "C18" => c18::replay(case),
         "C19" => c19::replay(case),
         "C20" => c20::replay(case),
         _ => return None,
@@ -74,6 +77,7 @@ pub fn child(name: &str, args: &[String]) -> Option<i32> {
         "c11sweep" => c11::child_sweep(args),
         "c16" => c16::child(args),
         "c16one" => c16::child_one(args),
+        "c18" => c18::child(args),
         "c09zone" => c09::child_zone(),
         "c09sweep" => c09::child_sweep(),
         _ => return None,
